@@ -81,6 +81,16 @@ def build(tier, rnd):
     add(['ssh-rsa', 'ssh-rsa-cert-v01@openssh.com', 'ssh-ed25519'], {}, 'ignore-before-reply')
     cases[-1]['server_opts'] = {'ignore_kinds': {'kexreply': 1}}
     cases[-1]['raw_hostkeys'] = {'ssh-rsa-cert-v01@openssh.com': rating.hostkey_blob('ssh-rsa-cert-v01@openssh.com', (1024, 'ssh-rsa', 4096))}
+    # the first probe of the RSA family (ssh-rsa) is answered with SSH_MSG_DISCONNECT, the next member's probe normally: one answered
+    # probe speaks for the whole family, so all three names carry the size
+    def _first_probe_disconnects(k, kind, idx, data):
+        from harness import wire
+        if k == 2 and kind == 'kexreply':
+            return [wire.frame(bytes([1]) + wire.u32(2) + wire.string(b'cannot sign with SHA-1') + wire.string(b''))]
+        return [data]
+    for size in (2048, 3072):
+        add(['ssh-rsa', 'rsa-sha2-256', 'rsa-sha2-512', 'ssh-ed25519'], {t: (size, '', 0) for t in RSA_FAM}, 'first-family-probe-fails')
+        cases[-1]['server_opts'] = {'mutate': _first_probe_disconnects}
     # advertised but never presented: the server closes the probe connection instead of sending the key.  Nothing was measured
     # for that type, so nothing may be reported for it (no size, no CA, no fingerprint); the other types are unaffected.
     for key, hk, held in ((['rsa-sha2-512', 'rsa-sha2-256', 'ssh-ed25519'], {}, RSA_FAM),
